@@ -41,9 +41,9 @@ def cleanup_stale_scratch():
             shutil.rmtree(d, ignore_errors=True)
 
 
-def make_scratch(dev=False):
+def make_scratch(dev=False, tag=""):
     cleanup_stale_scratch()
-    s = os.path.join(SCRATCH_ROOT, "vpv.dev" if dev else f"vpv.{os.getpid()}")
+    s = os.path.join(SCRATCH_ROOT, f"vpv.dev-{tag}" if dev else f"vpv.{os.getpid()}")
     os.makedirs(s, exist_ok=True)
     for f in ("Cargo.toml", "Cargo.lock"):
         shutil.copy(os.path.join(REPO, f), os.path.join(s, f))
@@ -112,14 +112,14 @@ def parse_kani_output(out):
                 loc = lines[i + 1].strip() if i + 1 < len(lines) and lines[i + 1].startswith(" File:") else ""
                 r["failed"].append((m.group(1).strip(), loc))
             m = re.match(r"VERIFICATION:- (\w+)", ln)
-            if m:
+            if m and r["status"] != "ERROR":
                 r["status"] = m.group(1)
             m = re.match(r"Verification Time: ([0-9.]+)s", ln)
             if m:
                 r["time"] = float(m.group(1))
             if "CBMC failed" in ln or "CBMC timed out" in ln or "out of memory" in ln.lower():
-                r["status"] = r["status"] or "ERROR"
-                r.setdefault("error", ln.strip())
+                r["status"] = "ERROR"
+                r["error"] = (r.get("error", "") + " " + ln.strip()).strip()
         i += 1
     return res
 
@@ -179,7 +179,7 @@ def run_unit(unit, tier="quick", dev=False, only=None):
     """-> (obligations, meta). Raises Undecided for machinery failures."""
     t0 = time.time()
     prop = unit["prop"]
-    scratch = make_scratch(dev)
+    scratch = make_scratch(dev, prop)
     meta = dict(scratch=scratch, appended=[], kani_cmd="", build_s=0.0)
     try:
         meta["appended"] = append_modules(scratch, unit)
@@ -216,8 +216,9 @@ def run_unit(unit, tier="quick", dev=False, only=None):
             for (rel, mod, contract) in unit["appends"]:
                 filters += ["--harness", f"{mod}::"]
         jobs = str(unit.get("jobs", 16))
-        cmd = ["cargo", "kani", "-Z", "function-contracts", "-Z", "stubbing"] + unit.get("kani_args", []) + filters + \
-              ["-j", jobs, "--output-format", "terse"]
+        ht = unit.get("harness_timeout", 600)
+        cmd = ["cargo", "kani", "-Z", "function-contracts", "-Z", "stubbing", "-Z", "unstable-options", "--harness-timeout", f"{ht}s"] + \
+              unit.get("kani_args", []) + filters + ["-j", jobs, "--output-format", "terse"]
         meta["kani_cmd"] = "cd <scratch>/crates/%s && %s" % (unit["crate"], " ".join(cmd))
         tk = time.time()
         rc, out = sh(cmd, cwd=crate_dir, timeout=unit.get("timeout", 1800))
@@ -249,7 +250,9 @@ def run_unit(unit, tier="quick", dev=False, only=None):
             hard = [(d, l) for d, l in r["failed"] if not IGNORABLE.search(d)]
             und = [(d, l) for d, l in hard if UNDECIDABLE.search(d)]
             real = [(d, l) for d, l in hard if not UNDECIDABLE.search(d)]
-            if r["status"] == "SUCCESSFUL" or (r["status"] == "FAILED" and not hard):
+            if r["status"] == "FAILED" and not r["failed"]:
+                o.status, o.detail = UNDECIDED, "Kani reported FAILED without a failed check (tool error / timeout): " + r.get("error", "")
+            elif r["status"] == "SUCCESSFUL" or (r["status"] == "FAILED" and not hard):
                 if r["cover_total"] and r["cover_sat"] < r["cover_total"] and r["status"] == "SUCCESSFUL":
                     o.status, o.detail = UNDECIDED, "vacuous: reachability cover unsatisfied"
                 else:
